@@ -15,8 +15,9 @@ import (
 const ruleC02 = "rapid-generated sequences of 1..4 messages, each built through the public API from hostile strings (CR/LF/CRLF runs, colons, leading/trailing spaces, field look-alikes, BOM, NUL, invalid UTF-8) for AppendData/AppendComment in any order, NewID/NewType, and Retry from {negative, 0, <1ms, 1ms, large, MaxInt64, random}; every wire form alone and their concatenation are decoded by the strict WHATWG reference interpreter and by sse.Read, and both must equal the event list computed from the models alone; the bytes must equal the reference encoding. Non-trivial: at least one payload contains CR/LF, a colon within the first 7 bytes, a leading space or a field-name prefix. Distinct: FNV-64 of the JSON of the case."
 
 type C02Case struct {
-	Msgs []MsgCase `json:"msgs"`
-	Plan Plan      `json:"plan"`
+	Msgs   []MsgCase `json:"msgs"`
+	Plan   Plan      `json:"plan"`
+	Repeat int       `json:"repeat,omitempty"` // the concatenation repeats the message list this many times (long streams)
 }
 
 func genC02(t *rapid.T) C02Case {
@@ -26,6 +27,27 @@ func genC02(t *rapid.T) C02Case {
 		c.Msgs = append(c.Msgs, genMsg(false).Draw(t, "msg"))
 	}
 	c.Plan = genPlan.Draw(t, "plan")
+	for _, m := range c.Msgs {
+		for _, op := range m.Ops {
+			for _, tx := range op.Texts {
+				if len(tx) > 600 { // tiny reads over a multi-KiB line cost quadratic time in the scanner
+					for i := range c.Plan.Sizes {
+						if c.Plan.Sizes[i] < 128 {
+							c.Plan.Sizes[i] += 128
+						}
+					}
+				}
+			}
+		}
+	}
+	if stats.Pct(t, "repeat") < 4 {
+		c.Repeat = 50 + stats.Pick(t, 400, "repeatn")
+		for i := range c.Plan.Sizes {
+			if c.Plan.Sizes[i] < 64 {
+				c.Plan.Sizes[i] += 64
+			}
+		}
+	}
 	return c
 }
 
@@ -123,6 +145,22 @@ func checkC02(t *testing.T, c C02Case) *stats.Verdict {
 		v.Class("concatenation")
 		if f := decodeBoth("concatenation", strings.Join(wires, ""), c.Plan, mods); f != "" {
 			return v.Failf("", "%s", f)
+		}
+	}
+	if c.Repeat > 1 {
+		v.Class("long-concatenation")
+		one := strings.Join(wires, "")
+		var allMods []oracle.Msg
+		for i := 0; i < c.Repeat; i++ {
+			allMods = append(allMods, mods...)
+		}
+		if len(one)*c.Repeat < 1<<20 {
+			if f := decodeBoth(fmt.Sprintf("concatenation repeated %d times", c.Repeat), strings.Repeat(one, c.Repeat), c.Plan, allMods); f != "" {
+				if len(f) > 3000 {
+					f = f[:3000] + "..."
+				}
+				return v.Failf("", "%s", f)
+			}
 		}
 	}
 	return v
